@@ -22,6 +22,7 @@ import FwdVerif.Driver.C04
 import FwdVerif.Driver.C05
 import FwdVerif.Driver.C06
 import FwdVerif.Driver.ReqConn
+import FwdVerif.Driver.C01
 
 open FwdVerif
 
@@ -48,6 +49,7 @@ def dispatch (line : String) : String :=
   | "C05" :: rest => C05.handle rest
   | "C06" :: rest => C06.handle rest
   | "C02" :: rest => ReqConn.handle rest
+  | "C01" :: rest => C01.handle rest
   | ["ping"] => "pong"
   | _ => "bad-op"
 
